@@ -354,7 +354,7 @@ func (fx *FuncCtx) stepIndexAddr(st *State, x *ssa.IndexAddr) {
 		if ob != nil {
 			ob.Expr = "index out of range in " + fx.describe(x)
 		}
-		fx.vals[x] = &Val{Ty: x.Type(), Addr: &Addr{Kind: AElem, Arr: "(sl_arr " + base.T + ")",
+		fx.vals[x] = &Val{Ty: x.Type(), Addr: &Addr{Kind: AElem, Arr: fx.arrOf(base.T),
 			Idx: fx.define("ix", "Int", "(+ (sl_off "+base.T+") "+idx.T+")"), Root: bt.Elem(), Ty: bt.Elem()}}
 	case *types.Pointer:
 		arr := bt.Elem().Underlying().(*types.Array)
@@ -420,8 +420,10 @@ func (fx *FuncCtx) stepSlice(st *State, x *ssa.Slice) {
 		if ob != nil {
 			ob.Expr = "slice bounds out of range in " + desc
 		}
-		t := fmt.Sprintf("(mk_sl (sl_arr %s) (+ (sl_off %s) %s) (- %s %s) (- %s %s))", base.T, base.T, lo, hi, lo, capT, lo)
-		fx.vals[x] = &Val{T: fx.define(x.Name(), "Sl", t), Ty: x.Type()}
+		t := fmt.Sprintf("(mk_sl %s (+ (sl_off %s) %s) (- %s %s) (- %s %s))", fx.arrOf(base.T), base.T, lo, hi, lo, capT, lo)
+		nt := fx.define(x.Name(), "Sl", t)
+		fx.sliceArr[nt] = fx.arrOf(base.T)
+		fx.vals[x] = &Val{T: nt, Ty: x.Type()}
 	case *types.Basic: // string
 		if x.High != nil {
 			hi = fx.val(st, x.High).T
@@ -765,3 +767,12 @@ func (fx *FuncCtx) stepNext(st *State, x *ssa.Next) {
 }
 
 func joinStr(xs []string, sep string) string { return strings.Join(xs, sep) }
+
+// arrOf returns the backing-array reference of a slice term, looking through
+// re-slicing so that stores into sub-slices are attributed to the original array.
+func (fx *FuncCtx) arrOf(t string) string {
+	if a, ok := fx.sliceArr[t]; ok {
+		return a
+	}
+	return "(sl_arr " + t + ")"
+}
